@@ -28,7 +28,8 @@ func C10_response_template() {
 	dropAccept := false
 	env := vChoose("env", 5)
 	reason := []byte("Switching Protocols")
-	switch vChoose("perturb", 10) {
+	perturb := vChoose("perturb", 10)
+	switch perturb {
 	case 0:
 	case 9: // the reason phrase is free text (RFC 7230 §3.1.2): empty, short, padded, or two arbitrary bytes
 		switch vChoose("reason", 4) {
@@ -170,6 +171,14 @@ func C10_response_template() {
 		case 2:
 			extra = append(extra, "Sec-WebSocket-Extensions: x-ext", "X-Other: 1")
 			wantExt = 1
+		}
+	}
+	// the same against a dialer that asked for nothing (the zero Dialer, ws.Dial): then every
+	// subprotocol and every extension in the response is one it did not request
+	if vChoose("bare", 2) == 1 {
+		d.Protocols, d.Extensions = nil, nil
+		if perturb == 7 || perturb == 8 {
+			valid, wantProto, wantExt, wantExtParams = false, "", 0, ""
 		}
 	}
 	srv := &vServer{}
